@@ -104,6 +104,9 @@ impl MT210 {
             }
         }
 
+        // Reject anything left after the last field of the type
+        verify_parser_complete(&parser)?;
+
         Ok(MT210 {
             transaction_reference,
             account_identification,
